@@ -23,7 +23,10 @@ pub struct CBuffer {
 #[repr(C)]
 pub struct CTrustedProxies(pub *mut c_void);
 
+pub type LogCallback = extern "C" fn(*const c_char, *const c_void, std::ffi::c_short);
+
 extern "C" {
+    pub fn redirectionio_log_init_with_callback(callback: LogCallback, data: *const c_void);
     pub fn redirectionio_action_json_deserialize(s: *mut c_char) -> *const Action;
     pub fn redirectionio_action_json_serialize(a: *mut Action) -> *const c_char;
     pub fn redirectionio_action_drop(a: *mut Action);
@@ -137,4 +140,31 @@ pub unsafe fn read_buffer(b: &CBuffer) -> Vec<u8> {
         return Vec::new();
     }
     std::slice::from_raw_parts(b.data, b.len).to_vec()
+}
+
+// ---- log callback, written the way the web-server modules write theirs: the message is handed over to the callback,
+// which reads it and releases it (exactly once) -------------------------------------------------------------------
+pub static LOG_MESSAGES: std::sync::atomic::AtomicU64 = std::sync::atomic::AtomicU64::new(0);
+pub static LOG_BAD: std::sync::atomic::AtomicU64 = std::sync::atomic::AtomicU64::new(0);
+static LOG_DATA: u8 = 0x5a;
+
+extern "C" fn log_callback(msg: *const c_char, data: *const c_void, level: std::ffi::c_short) {
+    use std::sync::atomic::Ordering;
+    LOG_MESSAGES.fetch_add(1, Ordering::Relaxed);
+    if msg.is_null() {
+        return;
+    }
+    // the message reads "<LEVEL> - <text>", and the user data pointer comes back unchanged
+    let text = unsafe { take_string(msg) }.unwrap_or_default();
+    let level_ok = (1..=5).contains(&level);
+    let prefix_ok = ["ERROR - ", "WARN - ", "INFO - ", "DEBUG - ", "TRACE - "].iter().any(|p| text.starts_with(p));
+    if !level_ok || !prefix_ok || data != (&LOG_DATA as *const u8 as *const c_void) {
+        LOG_BAD.fetch_add(1, Ordering::Relaxed);
+    }
+}
+
+/// Install the callback logger once per process.
+pub fn install_log_callback() {
+    static ONCE: std::sync::Once = std::sync::Once::new();
+    ONCE.call_once(|| unsafe { redirectionio_log_init_with_callback(log_callback, &LOG_DATA as *const u8 as *const c_void) });
 }
